@@ -58,8 +58,9 @@ type E1Case struct {
 	Stall    string       `json:"stall,omitempty"`  // "never": sender tasks are not scheduled before the final sweep
 	Futile   int          `json:"futile,omitempty"` // futile Close polls (real 100 ms sleeps) the schedule may take
 	NoSweep  bool         `json:"nosweep,omitempty"`
-	Probe    bool         `json:"probe,omitempty"` // C18: force a blocked writer on at the terminal state
-	C05      *C05Spec     `json:"c05,omitempty"`   // lifecycle probe configuration
+	Probe    bool         `json:"probe,omitempty"`    // C18: force a blocked writer on at the terminal state
+	C05      *C05Spec     `json:"c05,omitempty"`      // lifecycle probe configuration
+	Excluded int          `json:"excluded,omitempty"` // generator: items replaced because they belong to a listed finding
 }
 
 type e1Call struct {
@@ -134,6 +135,8 @@ type e1Run struct {
 	winners            []e1Winner
 	c05                *c05Probe
 	holder             netty.ChannelHolder
+	idBase             int
+	enqOrder           []int // task ids in the order of their low-level writes reaching the channel
 }
 
 // afterClosed in E1Task.After gates a task until the Close call that took effect has returned.
@@ -242,6 +245,9 @@ func (r *e1Run) hook(ch netty.Channel, where string) {
 			return (!st.Running && st.QueueLen == 0) || r.futile > 0
 		}
 	case "enqueue.after":
+		r.mu.Lock()
+		r.enqOrder = append(r.enqOrder, t.ID)
+		r.mu.Unlock()
 		for _, st := range r.senders() {
 			switch st.Label() {
 			case "send.beforeFlush", "t.flush", "send.beforeRelease", "send.afterRelease":
@@ -281,14 +287,19 @@ func (r *e1Run) hook(ch netty.Channel, where string) {
 }
 
 // fillPayload writes the self-describing payload of call id into dst.
-func fillPayload(dst []byte, id int) {
+// With idBase != 0 (message-level cases) the id byte is idBase+id and the rest is printable ASCII,
+// so that payloads never contain a delimiter.
+func fillPayload(dst []byte, id int, idBase int) {
 	x := uint32(id)*2246822519 + 374761393
 	for i := range dst {
 		x = x*1664525 + 1013904223
 		dst[i] = byte(x >> 24)
+		if idBase != 0 {
+			dst[i] = 0x20 + dst[i]%0x5f
+		}
 	}
 	if len(dst) > 0 {
-		dst[0] = byte(id)
+		dst[0] = byte(idBase + id)
 	}
 }
 
@@ -415,7 +426,7 @@ func (r *e1Run) doWrite(ti, oi int, op E1Op, td *e1TaskData, backing []byte) {
 		total += n
 	}
 	buf := backing[:total]
-	fillPayload(buf, call.ID)
+	fillPayload(buf, call.ID, r.idBase)
 	call.Payload = append([]byte{}, buf...)
 	var segs [][]byte
 	off := 0
@@ -778,7 +789,7 @@ func (r *e1Run) parseStream(stream []byte) (p e1Parsed, v *core.Violation) {
 	seen := map[int]bool{}
 	pos := 0
 	for pos < len(stream) {
-		id := int(stream[pos])
+		id := int(stream[pos]) - r.idBase
 		call := r.byID[id]
 		if call == nil || len(call.Payload) == 0 || !isWriteOp(call.Op.Op) {
 			return p, core.Viol("stream/unknown-bytes", "transport stream offset %d: byte %#x does not start any written payload (previous payloads %v)", pos, stream[pos], p.order)
